@@ -109,26 +109,30 @@ def main():
         except ValueError:
             res.count((label, "ctor-raise"), nontrivial=False)
             continue
-        c = rand_circuit(rng, npr, VOCAB)
-        try:
-            out = tr(c)
-        except (ValueError, NotImplementedError):
-            res.count((label, "raise"), nontrivial=False, bucket=label.split("(")[0] + ":raise")
-            continue
-        names = {aname(g) for g in out.gates}
-        res.count((label, tuple(map(str, describe(c)))), bucket=label.split("(")[0])
-        if full:
-            bad = names - target - exc
-        else:
-            bad = (names & {"RX", "RY", "RZ"}) - target
-        if bad:
-            res.fail(f"sweep:names:{label.split('(')[0]}", f"output contains gates {sorted(bad)} outside the promised set "
-                     f"{sorted(target)}", {"config": label, "circuit": describe(c), "out_names": sorted(names)})
-        if out.qubit_count != c.qubit_count:
-            res.fail(f"sweep:qubit_count:{label.split('(')[0]}", "qubit_count changed", {"config": label, "circuit": describe(c)})
-        if not qubits_of(out) <= qubits_of(c) | set():
-            res.fail(f"sweep:qubits:{label.split('(')[0]}", "a gate touches a qubit no input gate touches",
-                     {"config": label, "circuit": describe(c)})
+        # one instance is used on a history of circuits: a rejected circuit must not change what later calls promise
+        history = []
+        for _step in range(rng.randint(1, 4)):
+            c = rand_circuit(rng, npr, VOCAB if rng.random() < 0.7 else rng.sample(VOCAB, 3))
+            history.append(describe(c))
+            try:
+                out = tr(c)
+            except (ValueError, NotImplementedError):
+                res.count((label, "raise", len(history)), nontrivial=False, bucket=label.split("(")[0] + ":raise")
+                continue
+            names = {aname(g) for g in out.gates}
+            res.count((label, tuple(map(str, describe(c))), len(history)), bucket=label.split("(")[0])
+            if full:
+                bad = names - target - exc
+            else:
+                bad = (names & {"RX", "RY", "RZ"}) - target
+            inp = {"config": label, "circuit": describe(c), "earlier_calls_on_same_instance": history[:-1]}
+            if bad:
+                res.fail(f"sweep:names:{label.split('(')[0]}", f"output contains gates {sorted(bad)} outside the promised set "
+                         f"{sorted(target)}", dict(inp, out_names=sorted(names)))
+            if out.qubit_count != c.qubit_count:
+                res.fail(f"sweep:qubit_count:{label.split('(')[0]}", "qubit_count changed", inp)
+            if not qubits_of(out) <= qubits_of(c) | set():
+                res.fail(f"sweep:qubits:{label.split('(')[0]}", "a gate touches a qubit no input gate touches", inp)
     res.sample({"preset_targets": {k: sorted(v[1]) for k, v in presets.items()}})
     res.emit()
 
